@@ -82,7 +82,7 @@ def evaluate(pid, i, tier):
         if os.path.exists(stress):
             files = meta.get("files_changed") or []
             pkg = os.path.dirname(files[0]) if files else "."
-            first = open(stress).read().split("\npackage ", 1)[1].split()[0]
+            first = ("\n" + open(stress).read()).split("\npackage ", 1)[1].split()[0]
             if os.path.isdir(os.path.join(wt, first.replace("_test", ""))):
                 pkg = first.replace("_test", "")
             shutil.copy(stress, os.path.join(wt, pkg, f"zz_stress{i}_test.go"))
